@@ -451,6 +451,9 @@ func (s *Session) corpusReplay(u *Unit, o *Obligation, tmplText, why string) *Re
 				return rr
 			}
 			out, failed, cmd := runOverlayTest(s.replayRepo(), rr.PkgDir, buf.String())
+			if strings.Contains(out, "[setup failed]") || strings.Contains(out, "[build failed]") {
+				rr.Note += "; REPLAY TEST DID NOT COMPILE: " + trunc(out, 400)
+			}
 			if failed && strings.Contains(out, "GOCV-REPRODUCED") {
 				rr.Cmd = cmd
 				rr.TestSource = buf.String()
